@@ -841,6 +841,9 @@ func (w *World) conv(tDst, tSrc types.Type, x Value) Value {
 			if eb != nil && eb.Kind() == types.Uint8 {
 				b, ok := toBStr(x)
 				if !ok {
+					if t, isT := x.(*Term); isT {
+						return Slice{sym: t}
+					}
 					panic(w.unsupported("[]byte(symbolic-length string)"))
 				}
 				a := make([]Value, len(b))
@@ -862,6 +865,9 @@ func (w *World) conv(tDst, tSrc types.Type, x Value) Value {
 		if ut.Info()&types.IsString != 0 {
 			if st, ok := us.(*types.Slice); ok {
 				sl := x.(Slice)
+				if sl.sym != nil {
+					return sl.sym
+				}
 				eb := basicOf(st.Elem())
 				if eb != nil && eb.Kind() == types.Uint8 {
 					b := make(BStr, len(sl.a))
